@@ -1,9 +1,18 @@
 #!/venv/bin/python
-"""Offline setup steps beyond `lake build` (compiles the Xerces wrapper when present)."""
+"""Offline setup steps run before `lake build`: regenerate the translated tables from /repo's current
+source (so that the first build sees them) and compile the Xerces wrapper when present."""
+import importlib
 import os
 import subprocess
 import sys
 VERIF = os.path.dirname(os.path.dirname(os.path.abspath(__file__)))
+sys.path.insert(0, VERIF)
+from vlib import core  # noqa
+for fn in sorted(os.listdir(os.path.join(VERIF, 'translators'))):
+    if fn.endswith('.py') and fn != '__init__.py':
+        mod = importlib.import_module('translators.' + fn[:-3])
+        if hasattr(mod, 'generate'):
+            print('translator', fn, '->', mod.generate(core.REPO, os.path.join(core.LEAN, 'Pyc', 'Generated')))
 xsd = os.path.join(VERIF, 'vlib', 'xsd')
 if os.path.exists(os.path.join(xsd, 'XsdValidate.java')):
     r = subprocess.run(['javac', '-d', xsd, os.path.join(xsd, 'XsdValidate.java')])
